@@ -135,6 +135,41 @@ fn record_value(spec: &Value) -> Vec<u8> {
     v
 }
 
+/// which key the returned record carries: the adversary controls it (nothing upstream of the client
+/// checks that a reply is keyed with what was asked for)
+#[derive(Clone)]
+enum KeySpec {
+    Requested,
+    Bytes(Vec<u8>),
+}
+
+fn key_spec(spec: &Value) -> KeySpec {
+    match spec.get("key") {
+        None => KeySpec::Requested,
+        Some(Value::String(s)) if s == "requested" => KeySpec::Requested,
+        Some(Value::String(s)) if s == "unrelated" => KeySpec::Bytes(vec![0x77; 32]),
+        // the key under which the substituted content would honestly be stored
+        Some(Value::String(s)) if s == "content" => {
+            let body = &spec["body"];
+            match body["t"].as_str().unwrap_or("") {
+                "chunk" => KeySpec::Bytes(XorName::from_content(&hx(&body["hex"])).0.to_vec()),
+                "pad" => KeySpec::Bytes(
+                    ScratchpadAddress::new(sk(body["owner"].as_u64().unwrap()).public_key()).xorname().0.to_vec()),
+                _ => KeySpec::Bytes(XorName::from_content(&hx(&body["hex"])).0.to_vec()),
+            }
+        }
+        Some(Value::String(s)) => KeySpec::Bytes(hex::decode(s).expect("key hex")),
+        Some(other) => panic!("key spec {other}"),
+    }
+}
+
+fn keyed(key: &libp2p::kad::RecordKey, ks: &KeySpec, value: Vec<u8>) -> Record {
+    match ks {
+        KeySpec::Requested => mk_record(key, value),
+        KeySpec::Bytes(b) => mk_record(&libp2p::kad::RecordKey::new(b), value),
+    }
+}
+
 fn mk_record(key: &libp2p::kad::RecordKey, value: Vec<u8>) -> Record {
     Record { key: key.clone(), value, publisher: None, expires: None }
 }
@@ -143,18 +178,31 @@ fn mk_record(key: &libp2p::kad::RecordKey, value: Vec<u8>) -> Record {
 /// the two observations of a vault case see byte-identical records).
 #[derive(Clone)]
 enum Script {
-    Rec(Vec<u8>),
+    Rec(Vec<u8>, KeySpec),
     Err(String),
     /// versions, and (optionally) which of them the map must yield first when iterated
-    Split(Vec<Vec<u8>>, Option<usize>),
+    Split(Vec<(Vec<u8>, KeySpec)>, Option<usize>),
+}
+
+/// the key each scripted record will carry (script order), given the key that is requested
+fn script_keys(requested: &[u8], s: &Script) -> Vec<String> {
+    let one = |ks: &KeySpec| match ks {
+        KeySpec::Requested => hex::encode(requested),
+        KeySpec::Bytes(b) => hex::encode(b),
+    };
+    match s {
+        Script::Rec(_, ks) => vec![one(ks)],
+        Script::Err(_) => vec![],
+        Script::Split(vs, _) => vs.iter().map(|(_, ks)| one(ks)).collect(),
+    }
 }
 
 fn build_script(spec: &Value) -> Script {
     match spec["t"].as_str().unwrap() {
-        "rec" | "raw" => Script::Rec(record_value(spec)),
+        "rec" | "raw" => Script::Rec(record_value(spec), key_spec(spec)),
         "err" => Script::Err(spec["e"].as_str().unwrap().to_string()),
         "split" => Script::Split(
-            spec["recs"].as_array().unwrap().iter().map(record_value).collect(),
+            spec["recs"].as_array().unwrap().iter().map(|r| (record_value(r), key_spec(r))).collect(),
             spec.get("first").and_then(|f| f.as_u64()).map(|f| f as usize),
         ),
         other => panic!("reply kind {other}"),
@@ -165,7 +213,7 @@ fn build_script(spec: &Value) -> Script {
 /// (indices into the script's record list; HashMap iteration order is fixed once the map is built)
 fn reply_for(key: &libp2p::kad::RecordKey, s: &Script) -> (Reply, Vec<usize>) {
     match s {
-        Script::Rec(v) => (Ok(mk_record(key, v.clone())), vec![]),
+        Script::Rec(v, ks) => (Ok(keyed(key, ks, v.clone())), vec![]),
         Script::Err(e) => (
             Err(match e.as_str() {
                 "NotFound" => GetRecordError::RecordNotFound,
@@ -188,12 +236,12 @@ fn reply_for(key: &libp2p::kad::RecordKey, s: &Script) -> (Reply, Vec<usize>) {
             loop {
                 let mut result_map: HashMap<XorName, (Record, HashSet<PeerId>)> = HashMap::new();
                 let mut idx_of: HashMap<XorName, usize> = HashMap::new();
-                for (i, v) in vs.iter().enumerate() {
+                for (i, (v, ks)) in vs.iter().enumerate() {
                     // the network layer keys versions by content hash; identical values collapse
                     let h = XorName::from_content(v);
                     if !idx_of.contains_key(&h) {
                         let _ = idx_of.insert(h, i);
-                        let _ = result_map.insert(h, (mk_record(key, v.clone()), HashSet::new()));
+                        let _ = result_map.insert(h, (keyed(key, ks, v.clone()), HashSet::new()));
                     }
                 }
                 let order: Vec<usize> = result_map.keys().map(|h| idx_of[h]).collect();
@@ -363,10 +411,12 @@ fn op_chunk_get(rt: &tokio::runtime::Runtime, case: &Value) -> Value {
     });
     let key_ok = log.len() == 1
         && log[0] == hex::encode(NetworkAddress::from_chunk_address(ChunkAddress::new(addr)).to_record_key().as_ref());
+    let keys = script_keys(&addr.0, &script);
     match res {
         Ok(c) => json!({"res": "ok", "value": hex::encode(c.value()), "addr": hex::encode(c.address().xorname().0),
-                        "asked": hex::encode(addr.0), "key_ok": key_ok, "order": order}),
-        Err(e) => json!({"res": "err", "code": get_err_code(&e), "asked": hex::encode(addr.0), "key_ok": key_ok, "order": order}),
+                        "asked": hex::encode(addr.0), "key_ok": key_ok, "order": order, "keys": keys}),
+        Err(e) => json!({"res": "err", "code": get_err_code(&e), "asked": hex::encode(addr.0), "key_ok": key_ok,
+                         "order": order, "keys": keys}),
     }
 }
 
@@ -408,7 +458,9 @@ fn op_vault(rt: &tokio::runtime::Runtime, case: &Value) -> Value {
                                    "plain": p.decrypt_data(&owner).ok().map(hex::encode)}),
         Err(e) => json!({"res": "err", "code": format!("{e:?}").split('(').next().unwrap_or("").to_string()}),
     };
-    json!({"fetch": fetch, "pad": pad, "key_ok": key_ok, "order": order})
+    let asked_key = hex::decode(&want_key).unwrap();
+    json!({"fetch": fetch, "pad": pad, "key_ok": key_ok, "order": order, "asked_key": want_key,
+           "keys": script_keys(&asked_key, &script)})
 }
 
 fn fill(case: &Value) -> Vec<u8> {
@@ -511,23 +563,34 @@ fn op_data(rt: &tokio::runtime::Runtime, case: &Value) -> Value {
             let s = match with["t"].as_str().unwrap() {
                 "chunk_of" => {
                     let j = with["i"].as_u64().unwrap() as usize % chunks.len();
-                    Script::Rec(try_serialize_record(&chunks[j], RecordKind::Chunk).unwrap().to_vec())
+                    // "own_key": the substituted chunk arrives as a complete, well-formed record of itself
+                    let ks = if with["own_key"].as_bool().unwrap_or(false) {
+                        KeySpec::Bytes(chunks[j].name().0.to_vec())
+                    } else {
+                        KeySpec::Requested
+                    };
+                    Script::Rec(try_serialize_record(&chunks[j], RecordKind::Chunk).unwrap().to_vec(), ks)
                 }
                 "flip" => {
                     let mut v = store[&target].to_vec();
                     let k = with["at"].as_u64().unwrap() as usize % v.len().max(1);
                     if !v.is_empty() { v[k] ^= 1 + (with["bit"].as_u64().unwrap_or(0) as u8 % 255); }
-                    Script::Rec(try_serialize_record(&Chunk::new(Bytes::from(v)), RecordKind::Chunk).unwrap().to_vec())
+                    let ks = if with["own_key"].as_bool().unwrap_or(false) {
+                        KeySpec::Bytes(XorName::from_content(&v).0.to_vec())
+                    } else {
+                        KeySpec::Requested
+                    };
+                    Script::Rec(try_serialize_record(&Chunk::new(Bytes::from(v)), RecordKind::Chunk).unwrap().to_vec(), ks)
                 }
                 "truncate" => {
                     let mut v = store[&target].to_vec();
                     let _ = v.pop();
-                    Script::Rec(try_serialize_record(&Chunk::new(Bytes::from(v)), RecordKind::Chunk).unwrap().to_vec())
+                    Script::Rec(try_serialize_record(&Chunk::new(Bytes::from(v)), RecordKind::Chunk).unwrap().to_vec(), KeySpec::Requested)
                 }
                 "kind" => {
                     let mut v = header_bytes(with["kind"].as_u64().unwrap());
                     v.extend(rmp_serde::to_vec(&Chunk::new(store[&target].clone())).unwrap());
-                    Script::Rec(v)
+                    Script::Rec(v, KeySpec::Requested)
                 }
                 _ => build_script(with),
             };
